@@ -59,7 +59,9 @@ Init ==
     /\ mon = FoldMon(MonStep(MonInit, ResetEv), x.evs, 1)
     /\ g = [G0 EXCEPT !.log = <<[a |-> "open", cfg |-> cfg]>>]
 
-CanCall == s.up /\ g.calls < MaxCalls
+\* what the API does once the worker has died of an I/O error is not modelled (DESIGN.md section 9)
+WorkerAlive == s.w.pc # "exit"
+CanCall == s.up /\ g.calls < MaxCalls /\ WorkerAlive
 
 \* arguments: only what the reference accepts unless WithRejects; never outside the legal domain
 Offer(op, a) == LET x == RefApply(mon.ref, op, a) IN x.legal /\ (WithRejects \/ x.ok)
@@ -80,7 +82,7 @@ ACommit  == \E id \in CommitIds : DoCall("commit", [id |-> id], [a |-> "commit",
 AUser    == \E u \in Users : DoCall("userdata", [u |-> u, ul |-> IF u = "~" THEN 0 ELSE ULen], [a |-> "userdata", u |-> u])
 
 AFlush ==
-  /\ s.up /\ g.flushes < MaxFlush
+  /\ s.up /\ g.flushes < MaxFlush /\ WorkerAlive
   /\ LET fid == g.fid + 1
          x == CallFlush(s, fid)
          y == Settle(x)
@@ -90,14 +92,14 @@ AWorker ==
   /\ Concurrent /\ WEnabled(s)
   /\ LET x == WStep(s, FALSE) IN
      Take([s |-> x.s, evs |-> x.evs \o <<[e |-> "ws", w |-> 1, at |-> x.at, seq |-> 0]>>],
-          <<[a |-> "w", n |-> 1]>>, g)
+          <<[a |-> "w"]>>, g)
 
 AWorkerFault ==
   /\ Concurrent /\ WEnabled(s) /\ WFaultable(s) /\ g.faults < MaxFaults
   /\ LET x == WStep(s, TRUE)
          plan == <<[call |-> FaultCall(s), nth |-> 1]>>
      IN Take([s |-> x.s, evs |-> <<[e |-> "fault", seq |-> 0]>> \o x.evs \o <<[e |-> "ws", w |-> 1, at |-> x.at, seq |-> 0]>>],
-             <<[a |-> "fault", plan |-> plan], [a |-> "w", n |-> 1]>>, [g EXCEPT !.faults = @ + 1])
+             <<[a |-> "fault", plan |-> plan], [a |-> "w"]>>, [g EXCEPT !.faults = @ + 1])
 
 AReopen ==
   \* C02's premise: everything journalled has been handed over, written, synced and acknowledged
@@ -131,10 +133,7 @@ Spec == Init /\ [][Next]_vars
 -----------------------------------------------------------------------------
 (* properties: no violation beyond the recorded known findings               *)
 
-\* signatures of known findings (generated from known_findings.json)
-KnownSig == {}
-
-NoViolation == \A k \in 1..Len(mon.out.viol) : <<mon.out.viol[k].p, mon.out.viol[k].k>> \in KnownSig
+NoViolation == \A k \in 1..Len(mon.out.viol) : KnownFinding(mon.out.viol[k])
 
 \* direct state invariants, independent of the monitor
 CacheCounterExact == s.up => s.csz = SumSeq([k \in 1..Len(s.cache) |-> s.cache[k].p[2]])
@@ -146,6 +145,7 @@ DurableIsPrefix == \A k \in 1..Len(s.fs) : s.fs[k].dur <= Len(s.fs[k].recs)
 \* behaviour export: one line per state in which nothing more can be scheduled
 Terminal ==
   \/ ~s.up
+  \/ s.w.pc = "exit"
   \/ /\ g.calls = MaxCalls /\ g.flushes = MaxFlush /\ g.reopens = MaxReopen /\ g.crashes = MaxCrash
      /\ (~Concurrent \/ ~WEnabled(s))
 Export == Terminal => PrintT(<<"BEH", ToJson(g.log)>>)
